@@ -1,4 +1,172 @@
 package main
 
-func c07Main(args []string) error  { return nil }
-func c07cMain(args []string) error { return nil }
+import (
+	"fmt"
+	"os"
+	"path/filepath"
+	"strings"
+	"syscall"
+	"time"
+
+	"verifharness/hx"
+
+	"github.com/criyle/go-sandbox/pkg/mount"
+	"github.com/criyle/go-sandbox/pkg/rlimit"
+	"golang.org/x/sys/unix"
+)
+
+// c07 <cases.ndjson> <obs.ndjson> <scratch> <probe> [strace]
+// Every failing launch is induced by a REAL input (no fault-injection hook): the case names the
+// step of Launch.tla that has to fail (fail, idx) and the recipe below arranges the input.
+func c07Main(args []string) error {
+	if len(args) < 4 {
+		return fmt.Errorf("usage: c07 cases obs scratch probe [strace]")
+	}
+	cases, err := hx.ReadLines[Case](args[0])
+	if err != nil {
+		return err
+	}
+	w, err := hx.NewLineWriter(args[1])
+	if err != nil {
+		return err
+	}
+	defer w.Close()
+	e, err := newEnv(args[2], args[3])
+	if err != nil {
+		return err
+	}
+	defer e.close()
+	e.Strace = len(args) > 4 && args[4] == "strace"
+	// two bad executables next to the probe (visible as /bin/... in pivoted roots)
+	os.WriteFile(filepath.Join(e.BinDir, "noexec"), []byte("#!/bin/true\n"), 0644)
+	os.WriteFile(filepath.Join(e.BinDir, "garbage"), []byte("\x01\x02\x03 this is not an executable format\n"), 0755)
+	for _, c := range cases {
+		p := c07Plan(e, c)
+		ob := launchOne(e, p)
+		w.Write(ob)
+		if !keepDirs {
+			os.RemoveAll(fmt.Sprintf("%s/case-%d", e.Scratch, c.ID))
+		}
+	}
+	return nil
+}
+
+func c07Plan(e *Env, c Case) *plan {
+	p := basePlan(e, c)
+	if p.setupErr != "" {
+		return p
+	}
+	r := p.r
+	p.cbErr = c.Cb == "err"
+	p.cbDelay = 15 * time.Millisecond
+	dir := filepath.Join(e.Scratch, fmt.Sprintf("case-%d", c.ID))
+	binPrefix := e.BinDir
+	if c.Opt.Pivot {
+		binPrefix = "/bin"
+	}
+	id1 := []syscall.SysProcIDMap{{ContainerID: 0, HostID: 0, Size: 1}}
+	switch c.Fail {
+	case "none":
+	case "clone": // CgroupFd that is not a cgroup directory: clone3 fails
+		r.CgroupFd = e.NotCgFile.Fd()
+	case "idmap": // overlapping extents: the kernel refuses the uid_map write
+		r.UIDMappings = []syscall.SysProcIDMap{{ContainerID: 0, HostID: 0, Size: 10}, {ContainerID: 5, HostID: 5, Size: 10}}
+	case "keepcaps": // launcher thread has NO_SETUID_FIXUP locked off
+		p.secbits = 8
+	case "dropA_secbits": // launcher thread has NOROOT locked off
+		p.secbits = 2
+	case "setgroups": // no gid map given: the parent writes "deny" to /proc/<pid>/setgroups
+		r.GIDMappings = nil
+		r.GIDMappingsEnableSetgroups = false
+	case "setgid": // requested gid not mapped (groups are)
+		r.GIDMappings = id1
+		r.Credential.Groups = []uint32{0}
+		p.req.Groups = []int{0}
+	case "setuid": // requested uid not mapped
+		r.UIDMappings = id1
+	case "fds": // a listed descriptor is not open
+		p.extraFiles = []uintptr{1000}
+		unix.Close(1000)
+	case "pivot_tmpfs": // pivot root is not a directory
+		f := filepath.Join(dir, "rootfile")
+		os.WriteFile(f, nil, 0644)
+		r.PivotRoot = f
+	case "pivot_root": // "old_root" already exists in the new root
+		m := mount.Mount{Source: filepath.Join(dir, "wd"), Target: "old_root", Flags: unix.MS_BIND}
+		sp, err := m.ToSyscall()
+		if err != nil {
+			p.setupErr = err.Error()
+			return p
+		}
+		r.Mounts = append(r.Mounts, *sp)
+	case "mounts": // bind source of mount idx does not exist
+		if c.Idx >= len(r.Mounts) {
+			p.setupErr = "mount index out of range"
+			return p
+		}
+		ms := []mount.Mount{
+			{Source: e.BinDir, Target: "bin", Flags: unix.MS_BIND | unix.MS_RDONLY},
+			{Source: filepath.Join(dir, "wd"), Target: "w", Flags: unix.MS_BIND},
+			{Source: "/proc", Target: "proc", Flags: unix.MS_BIND | unix.MS_REC},
+		}
+		ms[c.Idx].Source = filepath.Join(dir, "no-such-source")
+		r.Mounts = r.Mounts[:0]
+		for _, m := range ms {
+			sp, err := m.ToSyscall()
+			if err != nil {
+				p.setupErr = err.Error()
+				return p
+			}
+			r.Mounts = append(r.Mounts, *sp)
+		}
+	case "mounts_mkdir": // target of mount idx can not be created (name too long)
+		if c.Idx >= len(r.Mounts) {
+			p.setupErr = "mount index out of range"
+			return p
+		}
+		ms := []mount.Mount{
+			{Source: e.BinDir, Target: "bin", Flags: unix.MS_BIND | unix.MS_RDONLY},
+			{Source: filepath.Join(dir, "wd"), Target: "w", Flags: unix.MS_BIND},
+			{Source: "/proc", Target: "proc", Flags: unix.MS_BIND | unix.MS_REC},
+		}
+		ms[c.Idx].Target = strings.Repeat("n", 300)
+		r.Mounts = r.Mounts[:0]
+		for _, m := range ms {
+			sp, err := m.ToSyscall()
+			if err != nil {
+				p.setupErr = err.Error()
+				return p
+			}
+			r.Mounts = append(r.Mounts, *sp)
+		}
+	case "chdir": // work directory does not exist
+		r.WorkDir = filepath.Join(p.req.WorkDir, "no-such-dir")
+	case "rlimits": // limit idx is above the hard limit (no CAP_SYS_RESOURCE)
+		var cur syscall.Rlimit
+		syscall.Getrlimit(unix.RLIMIT_NOFILE, &cur)
+		benign := rlimit.RLimit{Res: unix.RLIMIT_CORE, Rlim: syscall.Rlimit{Cur: 0, Max: 0}}
+		r.RLimits = []rlimit.RLimit{benign, benign, benign}
+		if c.Idx >= len(r.RLimits) {
+			p.setupErr = "rlimit index out of range"
+			return p
+		}
+		r.RLimits[c.Idx] = rlimit.RLimit{Res: unix.RLIMIT_NOFILE, Rlim: syscall.Rlimit{Cur: cur.Max + 1, Max: cur.Max + 1}}
+		p.req.RLimits = 3
+	case "seccompA", "seccompB": // invalid BPF program (length 0)
+		r.Seccomp = &syscall.SockFprog{Len: 0, Filter: &allowAll[0]}
+	case "exec":
+		switch c.Idx {
+		case 0: // missing
+			r.Args[0] = binPrefix + "/no-such-program"
+		case 1: // not executable
+			r.Args[0] = binPrefix + "/noexec"
+		default: // malformed
+			r.Args[0] = binPrefix + "/garbage"
+		}
+	default:
+		p.setupErr = "no recipe for step " + c.Fail
+	}
+	return p
+}
+
+func c07cMain(args []string) error { return c07cRun(args) }
